@@ -2238,6 +2238,11 @@ class Data(Container, NetCDFHDF5, Files, core.Data):
                     index = np.where(index)[0]
 
                 if not np.ndim(index):
+                    # E.g. numpy.int64(3) or numpy.array(3). Convert
+                    # to a Python integer, so that a 0-d array is
+                    # neither stored in the slice nor modified in
+                    # place.
+                    index = int(index)
                     if index < 0:
                         index += size
 
